@@ -186,6 +186,13 @@ func c01Cells(path string, content []byte, other []byte) []c01Cell {
 		raw("zstd-garbage", vlib.Bytes("garbage", 64, false), "reject", nil)
 		raw("zstd-cut-1", z[:len(z)-1], "reject", nil)
 		raw("zstd-trailing-garbage", append(append([]byte(nil), z...), []byte("garbage!")...), "reject", nil)
+		// stray bytes of every short length after a complete frame: zeros, and the
+		// beginning of a further frame cut off inside its magic / header
+		next := vlib.ZstdEncode([]byte("next frame"))
+		for _, l := range []int{1, 2, 3, 4, 5, 6, 9} {
+			raw(fmt.Sprintf("zstd-trailing-%d-zero-bytes", l), append(append([]byte(nil), z...), make([]byte, l)...), "reject", nil)
+			raw(fmt.Sprintf("zstd-trailing-frame-cut-at-%d", l), append(append([]byte(nil), z...), next[:l]...), "reject", nil)
+		}
 		if n >= 2 {
 			two := append(append([]byte(nil), vlib.ZstdEncode(content[:n/2])...), vlib.ZstdEncode(content[n/2:])...)
 			raw("zstd-two-frames", two, "either", content)
